@@ -67,6 +67,8 @@ func TestVerifC17Generate(t *testing.T) {
 		n := rapid.IntRange(1, 7).Draw(t, "nrecords")
 		var recs []chartconfig.ChartConfig
 		minByProg := map[string][]string{}
+		twins := false
+		twinned := map[string]bool{}
 		for i := 0; i < n; i++ {
 			prog := rapid.SampledFrom(progs).Draw(t, "program")
 			r := chartconfig.ChartConfig{
@@ -78,6 +80,27 @@ func TestVerifC17Generate(t *testing.T) {
 				r.Counter = fmt.Sprintf("s%d/bug", i)
 				r.Depth = rapid.IntRange(0, 16).Draw(t, "depth") // a "stack" record without a depth is collected as a counter
 			}
+			if i > 0 && rapid.IntRange(0, 4).Draw(t, "sameCounterOtherKind") == 0 {
+				// the same counter expression of the same program charted twice: once collected as a plain
+				// counter, once as a stack (e.g. gopls/bug as a partition and with depth 16)
+				o := recs[rapid.IntRange(0, i-1).Draw(t, "twinOf")]
+				if twinned[o.Program+"\x00"+o.Counter] {
+					o = recs[0]
+				}
+				if twinned[o.Program+"\x00"+o.Counter] {
+					goto noTwin
+				}
+				twinned[o.Program+"\x00"+o.Counter] = true
+				r.Program, r.Module, r.Counter = o.Program, o.Module, o.Counter
+				prog = o.Program
+				if o.Depth > 0 {
+					r.Type, r.Depth = "partition", 0
+				} else {
+					r.Type, r.Depth = "stack", rapid.IntRange(1, 16).Draw(t, "twinDepth")
+				}
+				twins = true
+			}
+		noTwin:
 			if rapid.IntRange(0, 3).Draw(t, "hasMin") != 0 {
 				if strings.HasPrefix(prog, "cmd/") {
 					r.Version = rapid.SampledFrom([]string{"go1.19", "go1.20", "go1.21", "go1.21.5", "go1.22.0", "go1.23.0", "go1.24"}).Draw(t, "minGo")
@@ -115,12 +138,22 @@ func TestVerifC17Generate(t *testing.T) {
 			for _, c := range p.Stacks {
 				if c.Name == r.Counter {
 					inStacks = true
-					if c.Depth != r.Depth {
+					if r.Depth > 0 && c.Depth != r.Depth {
 						t.Fatalf("stack %s depth %d, record says %d", r.Counter, c.Depth, r.Depth)
 					}
 				}
 			}
-			if (r.Depth > 0) != inStacks || (r.Depth > 0) == inCounters {
+			// is the same expression of the same program also charted in the other kind?
+			otherKind := false
+			for _, o := range recs {
+				if o.Program == r.Program && o.Counter == r.Counter && (o.Depth > 0) != (r.Depth > 0) {
+					otherKind = true
+				}
+			}
+			if r.Depth > 0 && !inStacks || r.Depth == 0 && !inCounters {
+				t.Fatalf("record %q (depth %d) is not listed as a %s under %s (counter=%v stack=%v)\n%s", r.Counter, r.Depth, map[bool]string{true: "stack", false: "counter"}[r.Depth > 0], r.Program, inCounters, inStacks, desc)
+			}
+			if !otherKind && ((r.Depth > 0) != inStacks || (r.Depth > 0) == inCounters) {
 				t.Fatalf("record %q (depth %d) listed as counter=%v stack=%v under %s\n%s", r.Counter, r.Depth, inCounters, inStacks, r.Program, desc)
 			}
 		}
@@ -174,7 +207,7 @@ func TestVerifC17Generate(t *testing.T) {
 				}
 			}
 		}
-		vstats.Case(desc, severalMins, fmt.Sprintf("severalMins:%v", severalMins))
+		vstats.Case(desc, severalMins, fmt.Sprintf("severalMins:%v", severalMins), fmt.Sprintf("sameCounterBothKinds:%v", twins))
 	})
 }
 
